@@ -861,6 +861,23 @@ class Interp:
                     else:
                         outs.append(Out('val', ('call', cal, (old,), e.get('id')), s2))
                 return outs
+        if cal == 'core::option::Option::<T>::get_or_insert_with' and len(e['args']) == 1 and self.combinators:
+            recv = hirq.peel_refs(e['recv'])
+            if recv['k'] == 'Path' and recv.get('res') == 'local':
+                cur = st.env.get(recv['bind'])
+                if cur is not None and cur[0] == 'ctor' and cur[1] == 'Some':
+                    return [Out('val', cur[2][0], st)]
+                if cur is not None and cur[0] == 'ctor' and cur[1] == 'None':
+                    outs = []
+                    for o0 in self.ev(e['args'][0], st):
+                        if o0.kind != 'val':
+                            outs.append(o0); continue
+                        for o in self.apply(o0.val, [], e, o0.st):
+                            if o.kind == 'val':
+                                outs.append(Out('val', o.val, o.st.set(recv['bind'], ('ctor', 'Some', (o.val,)))))
+                            else:
+                                outs.append(o)
+                    return outs
         if cal.endswith('alloc::vec::Vec::<T, A>::push') and len(e['args']) == 1:
             recv = hirq.peel_refs(e['recv'])
             if recv['k'] == 'Path' and recv.get('res') == 'local':
